@@ -155,7 +155,7 @@ class Source:
         self.m = mask(self.src)
 
     def find(self, item_path):
-        segs = [s.strip() for s in item_path.split("::") if s.strip()]
+        segs = [s.strip() for s in re.split(r"\s+::\s+", item_path) if s.strip()]
         # re-join generic args that contain '::' is not supported; impl headers must not contain '::'
         lo, hi = 0, len(self.src)
         it = None
